@@ -137,6 +137,107 @@ def run(name, props, tier="quick"):
     return 0
 
 
+def prun_one(name, props, tier):
+    """like run(), but against a scratch worktree of /repo (VERIF_REPO), so /repo stays untouched and runs can overlap"""
+    d = os.path.join(SEEDED, name)
+    meta = json.load(open(os.path.join(d, "meta.json")))
+    if not props:
+        props = [meta["property"]]
+    wt = "/tmp/seedrun/%s" % name
+    sh("git worktree remove --force %s" % wt, "/repo")
+    shutil.rmtree(wt, ignore_errors=True)
+    os.makedirs("/tmp/seedrun", exist_ok=True)
+    rc, out, _ = sh("git worktree add -q --detach %s HEAD" % wt, "/repo")
+    if rc != 0:
+        print(name, "worktree failed:", out)
+        return name, None
+    results = {}
+    try:
+        rc, out, _ = sh("git apply %s" % os.path.join(d, "patch.diff"), wt)
+        if rc != 0:
+            print(name, "patch does not apply:", out[-300:])
+            return name, None
+        for p in props:
+            env = "VERIF_REPO=%s VERIF_EVIDENCE_DIR=/tmp/seedrun/ev-%s" % (wt, name)
+            rc, out, w = sh("%s ./check %s --tier %s" % (env, p, tier), ROOT, timeout=3600)
+            vio = [l for l in out.splitlines() if l.startswith("VIOLATION")]
+            results[p] = {"rc": rc, "detected": rc == 1 and bool(vio), "wall_s": round(w, 1), "tier": tier,
+                          "first_violation_context": "\n".join(out.splitlines()[-25:])[-1800:] if rc != 0 else ""}
+            print("%s vs %s: rc=%d detected=%s wall=%.0fs" % (name, p, rc, results[p]["detected"], w), flush=True)
+    finally:
+        sh("git worktree remove --force %s" % wt, "/repo")
+        shutil.rmtree(wt, ignore_errors=True)
+        shutil.rmtree("/tmp/seedrun/ev-%s" % name, ignore_errors=True)
+    rf = os.path.join(d, "result.json")
+    old = json.load(open(rf)) if os.path.exists(rf) else {}
+    old.update(results)
+    json.dump(old, open(rf, "w"), indent=1)
+    return name, results
+
+
+def prun(names, props, tier, par):
+    from concurrent.futures import ThreadPoolExecutor
+    with ThreadPoolExecutor(max_workers=par) as ex:
+        list(ex.map(lambda n: prun_one(n, props, tier), names))
+    sh("git worktree prune", "/repo")
+    return 0
+
+
+def reverify_one(name):
+    """re-confirm an installed seed against the current /repo HEAD in a scratch worktree"""
+    d = os.path.join(SEEDED, name)
+    meta = json.load(open(os.path.join(d, "meta.json")))
+    v = name.split("-")[1]
+    wt = "/tmp/seedrun/rv-%s" % name
+    sh("git worktree remove --force %s" % wt, "/repo")
+    shutil.rmtree(wt, ignore_errors=True)
+    os.makedirs("/tmp/seedrun", exist_ok=True)
+    rc, out, _ = sh("git worktree add -q --detach %s HEAD" % wt, "/repo")
+    head = sh("git rev-parse --short HEAD", wt)[1].strip()
+    res = {"at_repo_head": head}
+    try:
+        os.makedirs(os.path.join(wt, "SEED", v))
+        shutil.copytree(os.path.join(d, "demo"), os.path.join(wt, "SEED", v, "demo"))
+        open(os.path.join(wt, "SEED", "go.mod"), "w").write("module seed\n\ngo 1.24\n")
+        demo_cmd = meta["demo_cmd"].replace("/tmp/seed/%s" % meta["property"], wt)
+        rc, out, w = sh(demo_cmd, wt)
+        res["demo_without_change_rc"] = 1 if demo_failed(rc, out) else 0
+        res["tail0"] = out[-500:]
+        clean(wt)
+        rc, out, _ = sh("git apply %s" % os.path.join(d, "patch.diff"), wt)
+        if rc != 0:
+            rc, out, _ = sh("git apply -3 %s && git reset -q" % os.path.join(d, "patch.diff"), wt)
+            if rc == 0 and "<<<<<<<" not in sh("git diff", wt)[1]:
+                res["rebased"] = True
+                newdiff = sh("git diff -- . ':!SEED'", wt)[1]
+            else:
+                rc = 1
+        res["applies"] = rc == 0
+        if rc == 0:
+            rc, out, w = sh("go build ./... && go test -vet=off -count=1 ./...", wt)
+            res["suite_with_change_rc"] = rc
+            fails = 0
+            for i in range(3):
+                rc, out, w = sh(demo_cmd, wt)
+                fails += 1 if demo_failed(rc, out) else 0
+            res["demo_with_change_failed_runs"] = "%d/3" % fails
+            res["tail1"] = out[-500:]
+    finally:
+        sh("git worktree remove --force %s" % wt, "/repo")
+        shutil.rmtree(wt, ignore_errors=True)
+    ok = res.get("applies") and res["demo_without_change_rc"] == 0 and res.get("suite_with_change_rc") == 0 and res.get("demo_with_change_failed_runs") == "3/3"
+    res["confirmed"] = bool(ok)
+    print(name, json.dumps({k: x for k, x in res.items() if not k.startswith("tail")}), flush=True)
+    if not ok:
+        print("   tail0:", res.get("tail0", "")[-300:].replace("\n", " | "))
+        print("   tail1:", res.get("tail1", "")[-300:].replace("\n", " | "))
+    if ok and res.get("rebased"):
+        open(os.path.join(d, "patch.diff"), "w").write(newdiff)
+    meta["reverified"] = {k: x for k, x in res.items() if not k.startswith("tail")}
+    json.dump(meta, open(os.path.join(d, "meta.json"), "w"), indent=1)
+    return ok
+
+
 def table():
     for d in sorted(glob.glob(os.path.join(SEEDED, "*"))):
         n = os.path.basename(d)
@@ -157,5 +258,23 @@ if __name__ == "__main__":
             tier = "thorough"
             rest.remove("--thorough")
         sys.exit(run(a[1], rest, tier))
+    if a[0] == "prun":
+        # prun [-j N] [--thorough] [--props C01,C02] name...
+        rest = a[1:]
+        par, tier, props = 4, "quick", []
+        if "-j" in rest:
+            i = rest.index("-j"); par = int(rest[i + 1]); del rest[i:i + 2]
+        if "--thorough" in rest:
+            tier = "thorough"; rest.remove("--thorough")
+        if "--props" in rest:
+            i = rest.index("--props"); props = rest[i + 1].split(","); del rest[i:i + 2]
+        sys.exit(prun(rest, props, tier, par))
+    if a[0] == "reverify":
+        from concurrent.futures import ThreadPoolExecutor
+        names = a[1:] or sorted(os.path.basename(x) for x in glob.glob(os.path.join(SEEDED, "*")))
+        with ThreadPoolExecutor(max_workers=6) as ex:
+            list(ex.map(reverify_one, names))
+        sh("git worktree prune", "/repo")
+        sys.exit(0)
     if a[0] == "table":
         table()
